@@ -34,6 +34,8 @@ def _(c):
            note="asyncio.wait([unassign_future, event_waiter], FIRST_COMPLETED): suspends")
     c.modifies("TPState._committed_futs", "Event.g_set", "Future.state", "Future.nres", "Future.res", "Future.exc")
     c.raises("an-unexpected-error", "BaseException")
+    # NoGroupCoordinator.close() cancels this task and awaits it unguarded: the cancellation must end it quietly
+    c.never_raises("CancelledError")
     c.loop(0, header="while True", invariants=[])
     c.loop(1, header="for tp in assignment.requesting_committed()", invariants=[])
     c.hook("before", "tp_state.update_committed", [
@@ -42,3 +44,30 @@ def _(c):
         ("assert", "answers-the-waiters-of-that-partition-of-the-current-assignment",
          "tp in assignment._tp_state and tp_state == assignment._tp_state[tp] and assignment == self._subscription._subscription.assignment"),
     ])
+
+
+# ------------------------------------------------------------------ GroupCoordinator._commit_refresh_routine
+@contract(MOD + ":GroupCoordinator._commit_refresh_routine", ["C13", "C19"])
+def _(c):
+    """the per-assignment task that refreshes the committed offsets on demand. _stop_commit_offsets_refresh_task cancels it
+    and awaits it unguarded (close(), rejoin): wherever the cancellation lands the routine must end quietly"""
+    c.self_("GroupCoordinator")
+    c.param("assignment", Ref("Assignment"))
+    c.no_class_inv = True
+    c.none_raises = True
+    c.local("event_waiter", Opt(TASK))
+    c.local("wait_futures", List(TASK))
+    c.local("timeout", Opt(REAL))
+    c.owns("self._retry_backoff_ms")
+    c.call("self._maybe_refresh_commit_offsets", returns=BOOL, havoc_all=True, raises=["KafkaError", "CancelledError"],
+           note="GroupCoordinator._maybe_refresh_commit_offsets (under contract, coordinator_commits.py): suspends")
+    c.call("commit_refresh_needed.clear", modifies=["Event.g_set"], note="asyncio.Event.clear()")
+    c.call("commit_refresh_needed.set", modifies=["Event.g_set"], note="asyncio.Event.set()")
+    c.call("commit_refresh_needed.wait", returns=Ref("WaitCoroutine"), post=["fresh(result)"], note="coroutine of asyncio.Event.wait()")
+    c.call("create_task", returns=TASK, post=["fresh(result)", "not result.done()"], note="asyncio task creation")
+    c.call("asyncio.wait", returns=Tup(Set(TASK), Set(TASK)), havoc_all=True, raises=["CancelledError"],
+           note="asyncio.wait([unassign_future(, event_waiter)], timeout, FIRST_COMPLETED): suspends")
+    c.modifies("Event.g_set", "Future.state", "Future.nres", "Future.res", "Future.exc", "TPState._committed_futs", "TPState._committed")
+    c.raises("a-refresh-error-for-the-coordination-routine", "Exception")
+    c.never_raises("CancelledError")
+    c.loop(0, header="while assignment.active", invariants=[])
